@@ -432,8 +432,11 @@ func (m *model) step(b blockInfo, prev, cur *view) {
 
 // overrunIsViolation: whether "a year's books exceed the year's supply" is reported as a violation.
 // The statement bounds every single block by what was left when the cycle began; it does not bound
-// the sum over the blocks of one cycle. See FINDINGS.md.
-var overrunIsViolation = true
+// the sum over the blocks of one cycle, and the repository's own (always failing, randomised) test
+// TestRewardsCumulativeStore_PullRewards expects a year-2 distribution of 70 058 400 against a supply of
+// 70 000 000 - the maintainers accept the overrun. Reporting it would demand more than C13 states, so
+// it is only counted (info year_books_above_supply); see DESIGN.md section 9.
+var overrunIsViolation = false
 
 func (m *model) tag() string {
 	var rs, fs []string
